@@ -84,6 +84,14 @@ THEOREMS = [
     "OllamaVerif.C19.prompt_in_order_legacy",
     "OllamaVerif.Prompt.scanTags_renderPieces",
     "OllamaVerif.C19.runner_scan_is_tags",
+    "OllamaVerif.C19.inplace_exact",
+    "OllamaVerif.C19.prompt_tags_inplace",
+    "OllamaVerif.C19.total_antitone_inplace_bytes",
+    "OllamaVerif.C19.retained_longest_fitting_inplace_bytes",
+    "OllamaVerif.Prompt.fromOpenAI_images",
+    "OllamaVerif.Prompt.fromOpenAI_one_image",
+    "OllamaVerif.C19.no_too_many",
+    "OllamaVerif.C19.openai_chat_images",
     "OllamaVerif.Tie.C19.image_tokens_and_guard_plain",
     "OllamaVerif.Tie.C19.image_tokens_and_guard_mllama",
     "OllamaVerif.Tie.C19.image_tokens_projector_nil_vs_empty",
@@ -176,7 +184,7 @@ def run(ctx):
                           + ", ".join(missing), no_input=True)
 
     # handler level: POST /api/chat through the real CreateHandler + ChatHandler with a mock runner
-    if not ctx.replay or "hchat " in open(env["VERIF_REPLAY"]).read():
+    if not ctx.replay or "hchat " in open(env["VERIF_REPLAY"]).read() or "ochat " in open(env["VERIF_REPLAY"]).read():
         henv = {"VERIF_N": ctx.scale(400, 4000)}
         if ctx.replay:
             henv["VERIF_REPLAY"] = env["VERIF_REPLAY"]
